@@ -39,6 +39,8 @@ TREE = [
     ("conftest.py", True, False, False, True),
     ("src/conftest.py", True, False, False, True),
     ("lib/site-packages/p.py", True, False, False, True),
+    (".cfg/d.py", True, False, False, True),
+    ("cfg/d.py", True, False, False, False),
     ("notes.txt", False, False, False, False),
     ("link.py", True, True, False, False),
     ("linkdir/x.py", True, True, False, False),
@@ -46,6 +48,8 @@ TREE = [
 PATS = [
     "*.py", "**/*.py", "src/*", "src/**", "src/b.py", "*/b.py", "tests/**", "*b*", "?.py", "nomatch/*",
     "src/b.py:2", "*.py:1", "a.py", "src/deep/*", "**", "*.txt", "linkdir/*", "link.py",
+    # spellings with a leading "./" (they name nothing: patterns are matched against paths relative to the directory)
+    "./.cfg/*", ".cfg/*", "./src/*", "./a.py", "cfg/*",
 ]
 
 
